@@ -224,6 +224,21 @@ theorem mmI_iterN_r (A B : List Nat → α) (M P : Nat) : ∀ n (s : MI α) (i' 
       · have h4 : ¬ (s.i ≤ i' ∧ i' < s.i + (n + 1) ∧ j' < P) := by omega
         simp [h3, h4, h1]
 
+/-- the whole state after `matrix::operator*` (for composing it with what follows in an enclosing kernel) -/
+theorem matmul_exec (ir : List Nat) (rr : List α) (ar : List (List Nat → α)) (F N M P : Nat) (A B r0 : List Nat → α)
+    (hN : N < 2^64) (hM : M < 2^64) (hP : P < 2^64) (hF : N < F ∧ M < F ∧ P < F) (i0 j0 k0 : Nat) (t0 : α) :
+    exec F mmProg (mmEnv ir rr ar N M P A B r0 i0 j0 k0 t0)
+      = some ((fun (s : MI α) => mmEnv ir rr ar N M P A B s.r s.i s.j s.k s.t) (iterN (mmStepI A B M P) N ⟨r0, 0, j0, t0, k0⟩)) := by
+  have hloop := wloop_count (fun env => ieval env (.bin .lt .S (.var 3) (.var 0)) ≠ 0) (exec (α := α) F mmBodyI)
+    (fun (s : MI α) => mmEnv ir rr ar N M P A B s.r s.i s.j s.k s.t) (fun s => s.i) N (mmStepI A B M P)
+    (by intro s _; simp [mmEnv, ieval, Covfie.Imp.eval, Covfie.Imp.evalBin])
+    (by intro s hi; exact mm_bodyI ir rr ar F N M P A B hM hP hN hF.2.1 hF.2.2 s hi)
+    (by intro s _; rfl) ⟨r0, 0, j0, t0, k0⟩ (Nat.zero_le _) F (by simpa using hF.1)
+  simp only [Nat.sub_zero] at hloop
+  simp only [mmProg, exec_seq, exec_iassign, exec_while, Option.bind_some]
+  simp only [mmEnv, ieval, Covfie.Imp.eval, List.set_cons_zero, List.set_cons_succ, Nat.zero_mod] at hloop ⊢
+  exact hloop
+
 /-- `matrix<N,M>::operator*(matrix<M,P>)` as written in `algebra/matrix.hpp`: after the call, entry (i, j) of the result is
 `t = 0; for k < M: t += this(i,k) * o(k,j)`, for every i < N, j < P, over any scalar type with `+` and `*`. -/
 theorem matmul_translated (ir : List Nat) (rr : List α) (ar : List (List Nat → α)) (F N M P : Nat) (A B r0 : List Nat → α) (hN : N < 2^64) (hM : M < 2^64) (hP : P < 2^64)
